@@ -6,12 +6,14 @@ import (
 
 	"github.com/sboehler/knut/lib/common/compare"
 	"github.com/sboehler/knut/lib/common/date"
+	"github.com/sboehler/knut/lib/common/dict"
 	"github.com/sboehler/knut/lib/common/multimap"
 	"github.com/sboehler/knut/lib/common/set"
 	"github.com/sboehler/knut/lib/common/table"
 	"github.com/sboehler/knut/lib/journal"
 	"github.com/sboehler/knut/lib/journal/performance"
 	"github.com/sboehler/knut/lib/model/account"
+	"github.com/sboehler/knut/lib/model/commodity"
 )
 
 type Query struct {
@@ -27,11 +29,15 @@ func (q Query) Execute(j *journal.Builder, r *Report) *journal.Processor {
 			if !days.Has(d) {
 				return nil
 			}
+			// float64 addition is not associative: sums are formed in a fixed order, so that the same journal
+			// gives the same report on every run
+			coms := dict.SortedKeys(d.Performance.V1, commodity.Compare)
 			var total float64
-			for _, v := range d.Performance.V1 {
-				total += v
+			for _, com := range coms {
+				total += d.Performance.V1[com]
 			}
-			for com, v := range d.Performance.V1 {
+			for _, com := range coms {
+				v := d.Performance.V1[com]
 				ss := q.Universe.Locate(com)
 				level, suffix, ok := q.Mapping.Level(strings.Join(ss, ":"))
 				if ok && level < len(ss)-suffix {
@@ -82,7 +88,7 @@ func (r *Report) PropagateWeights() {
 		if n.Value.Weights == nil {
 			n.Value.Weights = make(map[time.Time]float64)
 		}
-		for _, ch := range n.Children {
+		for _, ch := range dict.SortedValues(n.Children, multimap.SortAlpha[Value]) {
 			for date, w := range ch.Value.Weights {
 				n.Value.Weights[date] += w
 			}
@@ -93,8 +99,8 @@ func (r *Report) PropagateWeights() {
 func (r *Report) SortWeighted() {
 	r.weights.PostOrder(func(n *Node) {
 		var total float64
-		for _, w := range n.Value.Weights {
-			total += w
+		for _, date := range dict.SortedKeys(n.Value.Weights, compare.Time) {
+			total += n.Value.Weights[date]
 		}
 		n.Value.Weight = -total
 	})
